@@ -66,6 +66,9 @@ def gen_case(rng, uid):
         a, b = rng.sample(eligible, 2)
         b[1]["mode_name"] = a[1]["mode_name"]
         applied = "duplicate"
+        same_mod = [x for x in eligible if x[0] is b[0] and x[1] is not b[1] and x[1] is not a[1]]
+        if same_mod and rng.random() < 0.6:
+            same_mod[0][1]["mode_name"] = a[1]["mode_name"]      # a third class of that name, in the same module as the second
     elif fault == "defaults" and len(eligible) >= 2:
         for _, c in rng.sample(eligible, 2):
             c["default"] = True
@@ -255,6 +258,13 @@ def run_case(acc, case):
         missing = [n for n in A["healthy"] if n not in modes or getattr(modes[n], "ident", None) != A["healthy"][n]]
         if missing:
             acc.violation("C14/healthy-mode-not-offered", f"healthy modes {missing} are not in selector.modes ({sorted(modes)})", case, {})
+            return
+        # every mode object that could be constructed is still on offer under some name (tolerated duplicates included)
+        offered_idents = sorted(getattr(v, "ident", None) for v in modes.values())
+        constructed = sorted(i for i, _c, good in A["eligible"] if good)
+        acc.checks += 1
+        if offered_idents != constructed:
+            acc.violation("C14/constructed-mode-not-offered", f"constructed mode objects {constructed} but selector.modes offers {offered_idents}", case, {})
             return
         if not faults and set(modes) != set(A["healthy"]):
             acc.violation("C14/modes-set", f"selector.modes has {sorted(modes)}, expected {sorted(A['healthy'])}", case, {})
